@@ -221,6 +221,8 @@ type Exec struct {
 	pendingGhost []pendingGhostCheck
 	allocSeq int
 	noSafety int
+	facts    map[*smt.Term]*smt.Term
+	foldMemo map[*smt.Term]*smt.Term
 	keepPre  bool
 	lastResult *smt.Term
 }
